@@ -415,5 +415,32 @@ def SelH.onData : SelH → DataH → Bool
   | .dflt, .h _ => true
   | .dflt, .v _ => false
 
+/-! ## the classes and functions the harness makes `select_bins` from (`SelForm`, `Model/C11.lean`) -/
+
+/-- the classes used as selectors: `int`, `str`, `tuple`, `list`, `lena.structures.histogram` -/
+inductive TypeTag where
+  | int | str | tuple | list | hist
+
+/-- `isinstance(data, cls)` for data that is a value -/
+def TypeTag.onV : TypeTag → V → Bool
+  | .int, .int _ => true
+  | .str, .str _ => true
+  | .tuple, .seq true _ => true
+  | .list, .seq false _ => true
+  | _, _ => false
+
+/-- `isinstance(data, cls)` for data that may be a histogram -/
+def TypeTag.onH : TypeTag → DataH → Bool
+  | .hist, .h _ => true
+  | .hist, .v _ => false
+  | _, .h _ => false
+  | t, .v x => t.onV x
+
+/-- the harness's selector functions as callables on a value whose data is a value (MapBins) … -/
+def Sel.atom (s : Sel) : SelAtom V := .fn (s.onValue names)
+
+/-- … and on data that may be a histogram (IterateBins; applied to the data part) -/
+def SelH.atom (s : SelH) : SelAtom DataH := .fn (fun v => s.onData (C14.getDataContext names v).1)
+
 end
 end Lena.C11.Conc
